@@ -419,7 +419,7 @@ for i in range(start, len(calls)):
         pid = os.fork()
         if pid == 0:
             os.close(rd)
-            signal.setitimer(signal.ITIMER_VIRTUAL, 2.0)
+            signal.setitimer(signal.ITIMER_VIRTUAL, 1.0)
             signal.setitimer(signal.ITIMER_REAL, 60.0)
             r = one(c)
             os.write(wr, json.dumps(r).encode())
